@@ -18,3 +18,19 @@ job('string', 'str.starts_ends_string', 'h_str_starts_ends_string', ['C07'], def
 job('string', 'str.starts_ends_cstr', 'h_str_starts_ends_cstr', ['C07'], defines=['TR_NO_FACTS'], expect=[r'ST_string_starts_with_cstr\.postcondition\.2', r'ST_string_ends_with_cstr\.postcondition\.2'])
 job('string', 'str.compare_string', 'h_str_compare_string', ['C06', 'C04'], defines=['TR_NO_FACTS'], expect=[r'ST_string_compare\.postcondition\.[123]', r'ST_string_operators\.postcondition\.[123]'])
 job('string', 'str.compare_cstr', 'h_str_compare_cstr', ['C06'], defines=['TR_NO_FACTS'], expect=[r'ST_string_compare_cstr\.postcondition\.[12]'])
+
+# ---- C08: slicing
+SLICE = ['ST_string_substr', 'ST_string_left', 'ST_string_right', 'ST_string_trim_left', 'ST_string_trim_right', 'ST_string_trim'] + \
+        ['ST_string_%s__%s_case_sensitivity_t_k' % (f, a) for f in ('before_first', 'after_first', 'before_last', 'after_last') for a in ('c', 'pc', 'rstring')]
+unit('string_slice', functions=SLICE, stubs=LEAF_STUBS + ['ST_string__find_last', 'ST_string_find_last__sz_c_case_sensitivity_t_k'], spec='contracts/string_slice.spec',
+     harness='harness/string_slice.c', include=INC)
+job('string_slice', 'str.substr', 'h_str_substr', ['C08', 'C04'], expect=[r'slice\.postcondition\.[1-6]', r'ST_string_substr\.postcondition\.7'])
+job('string_slice', 'str.left_right', 'h_str_left_right', ['C08'], expect=[r'slice\.postcondition\.[1-6]'])
+for sel, nm in enumerate(['trim_left', 'trim_right', 'trim']):
+    job('string_slice', 'str.' + nm, 'h_str_trim', ['C08'], defines=['TRIM_SEL=%d' % sel], timeout=900,
+        expect=[r'slice\.postcondition\.[1-6]', r'ST_string_trim\.postcondition\.(8|9|10|11)', r'ST_string_%s\.loop0\.invariant_step' % nm])
+for w, wn in enumerate(['before_first', 'after_first', 'before_last', 'after_last']):
+    for k, kn in enumerate(['char', 'cstr', 'string']):
+        job('string_slice', 'str.%s.%s' % (wn, kn), 'h_str_before_after', ['C08'], defines=['BA_WHICH=%d' % w, 'BA_SEPKIND=%d' % k], timeout=900, expect=[r'slice\.postcondition\.[1-6]'])
+PROPS['C08'] = dict(level='proof', explanation='substr/left/right proved against the clamp specification of the property text for every start, count and size (no oversized allocation request: operator new[] stub asserts it); trim loops proved for unbounded length against an uninterpreted membership predicate; before/after are compositions over the search contracts and the real substr/left: before + separator + after reassembles the original',
+    trusted_base=['char_traits<char>::find/length/copy contracts (prelude.h)', 'leaf search contracts (harness/leaf_stubs.h), each clause proved in the C07 leaf jobs'], assumptions=[])
